@@ -21,6 +21,7 @@ import (
 	"context"
 	"errors"
 	"fmt"
+	"os"
 	"sort"
 	"strconv"
 	"strings"
@@ -99,8 +100,51 @@ func c03LinkMode(name string) int32 {
 		return 8
 	case "nilreply":
 		return 9
+	case "int1reply":
+		return 10
+	case "int2reply":
+		return 11
 	}
 	return -1
+}
+
+// round 5c: a reply lost AFTER the script ran (the caller's deadline / the client's read timeout expires while the call is
+// in flight).  A go-redis hook on the store client lets the EVALSHA through, waits for the reply and then reports an
+// error instead: 1 = context.DeadlineExceeded, 2 = an i/o timeout.  One shot: armed by the ops `ltake` / `lallow`.
+var c03Lost atomic.Int32
+
+type c03LostHook struct{}
+
+func (c03LostHook) DialHook(next red.DialHook) red.DialHook { return next }
+func (c03LostHook) ProcessPipelineHook(next red.ProcessPipelineHook) red.ProcessPipelineHook {
+	return next
+}
+func (c03LostHook) ProcessHook(next red.ProcessHook) red.ProcessHook {
+	return func(ctx context.Context, cmd red.Cmder) error {
+		err := next(ctx, cmd)
+		name := strings.ToLower(cmd.Name())
+		if (name == "evalsha" || name == "eval") && (err == nil || errors.Is(err, red.Nil)) {
+			if k := c03Lost.Swap(0); k != 0 {
+				var e error = context.DeadlineExceeded
+				if k == 2 {
+					e = os.ErrDeadlineExceeded // "i/o timeout": not a context error
+				}
+				cmd.SetErr(e)
+				return e
+			}
+		}
+		return err
+	}
+}
+
+func c03LostKind(s string) int32 {
+	switch s {
+	case "deadline":
+		return 1
+	case "timeout":
+		return 2
+	}
+	return 0
 }
 
 var c03Timeouts atomic.Int32 // recoveries that did not happen within the bound, in this process
@@ -138,7 +182,7 @@ func c03Hook(c *server.Peer, cmd string, args ...string) bool {
 		}
 		c.WriteError(c03DownMsg)
 		return true
-	case 6, 7, 8, 9:
+	case 6, 7, 8, 9, 10, 11:
 		if isPing {
 			c.WriteError(c03PingMsg)
 			return true
@@ -151,6 +195,10 @@ func c03Hook(c *server.Peer, cmd string, args ...string) bool {
 				c.WriteInt(3)
 			case 8:
 				c.WriteInt(-1)
+			case 10:
+				c.WriteInt(1)
+			case 11:
+				c.WriteInt(2)
 			default:
 				c.WriteNull()
 			}
@@ -281,12 +329,18 @@ func c03GenPeriod(r *verifh.Rng) verifh.Section {
 		case x < 95:
 			if r.Chance(1, 2) {
 				// the script path of the store client: cache flushed, NOSCRIPT reload served / failing, EVALSHA failing
-				switch r.Intn(6) {
+				switch r.Intn(8) {
+				case 6, 7:
+					// the reply of a take is lost after the script ran: the permit is consumed, the caller gets an error
+					ops = append(ops, fmt.Sprintf("ltake %s %s", k, r.PickS("deadline", "timeout")), "take "+k)
+					if r.Bool() {
+						ops = append(ops, fmt.Sprintf("ltake %s %s", k, r.PickS("deadline", "timeout")), fmt.Sprintf("takec %s %d", k, r.Intn(nlim)))
+					}
 				case 0:
 					ops = append(ops, "ftake "+k)
 				case 4, 5:
 					// the server answers without running the script: string / integer that is no code / nil
-					ops = append(ops, "link "+r.PickS("strreply", "int3reply", "intm1reply", "nilreply"), "take "+k,
+					ops = append(ops, "link "+r.PickS("strreply", "int3reply", "intm1reply", "nilreply", "int1reply", "int2reply"), "take "+k,
 						fmt.Sprintf("takec %s %d", k, r.Intn(nlim)))
 					if r.Bool() {
 						ops = append(ops, r.PickS("takex ", "taked ", "takef ")+k)
@@ -577,11 +631,24 @@ func c03GenToken(r *verifh.Rng) verifh.Section {
 					ops = append(ops, "ping")
 				}
 			} else {
-				switch r.Intn(7) {
+				switch r.Intn(12) {
+				case 7, 9, 10:
+					// the reply is lost after the script ran, the caller sees its deadline: refused, the bucket is charged
+					ops = append(ops, fmt.Sprintf("lallow %d %d %d deadline", i, now(), size()))
+					allow(i)
+					allow(r.Intn(ninst))
+				case 8, 11:
+					// … the caller sees an i/o timeout: a store failure; pings are held so that the instance stays local
+					ops = append(ops, "upstore")
+					state = 2
+					ops = append(ops, fmt.Sprintf("lallow %d %d %d timeout", i, now(), size()))
+					for q := 0; q < ninst; q++ {
+						allow(q)
+					}
 				case 5, 6:
 					// the server answers without running the script: a string (-> rescue mode), an integer that is not 1,
 					// a nil reply (-> refused); requests of every size, then back to the ONE bucket
-					m := r.PickS("strreply", "strreply", "int3reply", "intm1reply", "nilreply")
+					m := r.PickS("strreply", "strreply", "int3reply", "intm1reply", "nilreply", "int1reply", "int2reply")
 					ops = append(ops, "link "+m)
 					for q := 0; q < ninst; q++ {
 						ops = append(ops, fmt.Sprintf("allow %d %d %d", q, now(), r.Pick(1, burst, burst+1, burst+3, r.Range(0, burst+1))))
@@ -773,7 +840,8 @@ func c03Gen(r *verifh.Rng) []verifh.Section {
 	for i, nz := 0, verifh.Scale(10, 60); i < nz; i++ {
 		secs = append(secs, c03GenTokenZ(r))
 	}
-	np, nt := verifh.Scale(48, 400), verifh.Scale(50, 450)
+	// thorough: the recoveries of token sections (`up`, `latefail`: one real 100 ms ping tick each) are 80% of the run time
+	np, nt := verifh.Scale(48, 400), verifh.Scale(50, 240)
 	for i := 0; i < np; i++ {
 		secs = append(secs, c03GenPeriod(r))
 	}
@@ -872,7 +940,7 @@ func TestVerifC03(t *testing.T) {
 	// harness age an outage out of the window instead of waiting ten seconds
 	timex.VerifSetNow(time.Duration(1000000) * time.Second)
 	defer timex.VerifClockOff()
-	store := redis.New(mr.Addr())
+	store := redis.New(mr.Addr(), redis.WithHook(c03LostHook{}))
 	// load both scripts once, sequentially: on a cold store the first EVALSHA of every concurrent caller is
 	// answered NOSCRIPT, which the client's breaker counts as a failure (six of them open it) - that is the
 	// store client's business, not this property's; every run (also a replay) starts warm
@@ -885,7 +953,37 @@ func TestVerifC03(t *testing.T) {
 		NewPeriodLimit(1, 1, store, "warm:").Take("x")
 		NewTokenLimiter(1, 1, store, "warm").AllowN(time.Unix(c03Epoch, 0), 1)
 	}
+	prof := map[string]time.Duration{}
+	profN := map[string]int{}
+	if os.Getenv("C03_PROFILE") != "" {
+		defer func() {
+			for k, v := range prof {
+				fmt.Fprintf(os.Stderr, "PROFILE %-22s n=%-6d total=%v\n", k, profN[k], v)
+			}
+		}()
+	}
+	timed := func(kind string, step func(op []string) string, done func()) (func(op []string) string, func()) {
+		if os.Getenv("C03_PROFILE") == "" {
+			return step, done
+		}
+		return func(op []string) string {
+			t0 := time.Now()
+			r := step(op)
+			prof[kind+"/"+op[0]] += time.Since(t0)
+			profN[kind+"/"+op[0]]++
+			return r
+		}, func() {
+			t0 := time.Now()
+			if done != nil {
+				done()
+			}
+			prof[kind+"/done"] += time.Since(t0)
+			profN[kind+"/done"]++
+		}
+	}
 	verifh.Run(t, secs, func(cfg verifh.Cfg) (func(op []string) string, func()) {
+		tStart := time.Now()
+		defer func() { prof["section-start"] += time.Since(tStart); profN["section-start"]++ }()
 		c03Mode.Store(0)
 		c03CleanBreaker()
 		warm() // every section starts with both scripts in the server's cache (an earlier section may have flushed them)
@@ -897,11 +995,14 @@ func TestVerifC03(t *testing.T) {
 		}
 		switch cfg.Str("kind", "") {
 		case "period":
-			return c03Period(mr, secStore, cfg)
+			st, dn := c03Period(mr, secStore, cfg)
+			return timed("period", st, dn)
 		case "token", "tokennow":
-			return c03Token(mr, secStore, cfg)
+			st, dn := c03Token(mr, secStore, cfg)
+			return timed("token", st, dn)
 		case "tokenkeys":
-			return c03TokenKeys(mr, store, cfg)
+			st, dn := c03TokenKeys(mr, store, cfg)
+			return timed("tokenkeys", st, dn)
 		case "tokenz":
 			l := NewTokenLimiter(cfg.Int("rate", 1), cfg.Int("burst", 1), store, "k")
 			return func(op []string) string {
@@ -995,6 +1096,15 @@ func c03Period(mr *miniredis.Miniredis, store *redis.Redis, cfg verifh.Cfg) (fun
 			if e := c03ScriptFlush(); e != "" {
 				return e
 			}
+			return one(op[1], func() (int, error) { return lims[0].Take(op[1]) })
+		case "ltake":
+			// the script runs, the reply is lost: the caller gets the deadline's / the timeout's error
+			k := c03LostKind(op[2])
+			if k == 0 {
+				return "bad-op"
+			}
+			c03Lost.Store(k)
+			defer c03Lost.Store(0)
 			return one(op[1], func() (int, error) { return lims[0].Take(op[1]) })
 		case "takec":
 			j := verifh.Atoi(op[2])
@@ -1324,10 +1434,18 @@ func c03Token(mr *miniredis.Miniredis, store *redis.Redis, cfg verifh.Cfg) (func
 			l.rescueLock.Unlock()
 			l.startMonitor()
 			return recoverAll()
-		case "allow", "allowc", "allowx", "allowd", "allowf", "fallow":
+		case "allow", "allowc", "allowx", "allowd", "allowf", "fallow", "lallow":
 			i := verifh.Atoi(op[1])
 			if i < 0 || i >= ninst {
 				return "bad-op"
+			}
+			if op[0] == "lallow" {
+				k := c03LostKind(op[4])
+				if k == 0 {
+					return "bad-op"
+				}
+				c03Lost.Store(k)
+				defer c03Lost.Store(0)
 			}
 			if op[0] == "fallow" {
 				if e := c03ScriptFlush(); e != "" {
